@@ -63,6 +63,17 @@ def cases(ctx):
     for i in range(ctx.n(700, 3000)):
         lead = tuple(int(x) for x in rng.integers(0, 4, int(rng.integers(0, 4))))
         m, kind = _matrix(rng, lead)
+        lay = int(rng.integers(0, 6))
+        if lay == 1:
+            m = np.asfortranarray(m)
+        elif lay == 2 and m.size:  # non-contiguous view of a bigger buffer
+            big = np.zeros(m.shape[:-2] + (4, 4), dtype=m.dtype)
+            big[..., ::2, ::2] = m
+            m = big[..., ::2, ::2]
+        elif lay == 3 and m.dtype.kind == "i":
+            m = m.astype([np.int32, np.uint32, np.uint8][int(rng.integers(0, 3))]) if m.size == 0 or m.max() < 200 else m
+        elif lay == 4 and m.dtype.kind == "f":
+            m = m.astype(np.float32)
         a1, a2 = sorted(float(x) for x in rng.uniform(0.001, 0.999, 2))
         yield {"m": m, "kind": kind, "a1": a1, "a2": a2}
 
@@ -85,11 +96,14 @@ def execute(ctx, case):
     w = lambda **kw: (lambda: dict({"matrix": m}, **kw))  # noqa: E731
     sess.observe("R-met")
     C = lambda ok, what, key, **kw: sess.check("R-met", bool(ok), what, w(**kw), sig=sig, key=key)  # noqa: E731
-    C(np.allclose(cm.p() + cm.n(), cm.pop(), rtol=1e-12) and np.allclose(cm.top() + cm.ton(), cm.pop(), rtol=1e-12), "P+N = TOP+TON = POP violated", "met-pop")
+    rt = monitors._rtol_of(m)  # float32 matrices are computed in float32: identities hold to that accuracy
+    at = 1e-12 if rt <= 1e-12 else 4 * rt
+    at_ci = 1e-12 if rt <= 1e-12 else 4 * rt ** 0.5
+    C(np.allclose(cm.p() + cm.n(), cm.pop(), rtol=rt) and np.allclose(cm.top() + cm.ton(), cm.pop(), rtol=rt), "P+N = TOP+TON = POP violated", "met-pop")
     for a, b in PAIRS:
         va, vb = np.asarray(getattr(cm, a)(), dtype=float), np.asarray(getattr(cm, b)(), dtype=float)
         s_ = va + vb
-        C(np.array_equal(np.isnan(va), np.isnan(vb)) and np.all(np.isnan(s_) | (np.abs(s_ - 1) <= 1e-12)), "complementary rates do not sum to 1 / are not NaN together", "met-complement", pair=[a, b])
+        C(np.array_equal(np.isnan(va), np.isnan(vb)) and np.all(np.isnan(s_) | (np.abs(s_ - 1) <= at)), "complementary rates do not sum to 1 / are not NaN together", "met-complement", pair=[a, b])
         C(np.array_equal(va, np.asarray(getattr(M, a)(m), dtype=float), equal_nan=True), "class method differs from the module function", "met-method", metric=a)
     for a, b in ALIASES:
         C(np.array_equal(np.asarray(getattr(cm, a)(), dtype=float), np.asarray(getattr(cm, b)(), dtype=float), equal_nan=True)
@@ -99,8 +113,8 @@ def execute(ctx, case):
         ci2 = getattr(cm, nm)(alpha=a2)
         cc = getattr(cm, comp)(alpha=a1)
         fin = ~np.isnan(ci[..., 0])
-        C(np.all(ci[..., 0][fin] <= ci2[..., 0][fin] + 1e-15) and np.all(ci[..., 1][fin] >= ci2[..., 1][fin] - 1e-15), "intervals not nested in alpha", "met-ci-nested", ci=nm, alphas=[a1, a2])
-        C(np.allclose(cc[..., 0], 1 - ci[..., 1], atol=1e-12, rtol=0, equal_nan=True) and np.allclose(cc[..., 1], 1 - ci[..., 0], atol=1e-12, rtol=0, equal_nan=True),
+        C(np.all(ci[..., 0][fin] <= ci2[..., 0][fin] + 1e-15 + (at_ci if rt > 1e-12 else 0)) and np.all(ci[..., 1][fin] >= ci2[..., 1][fin] - 1e-15 - (at_ci if rt > 1e-12 else 0)), "intervals not nested in alpha", "met-ci-nested", ci=nm, alphas=[a1, a2])
+        C(np.allclose(cc[..., 0], 1 - ci[..., 1], atol=at_ci, rtol=0, equal_nan=True) and np.allclose(cc[..., 1], 1 - ci[..., 0], atol=at_ci, rtol=0, equal_nan=True),
           "interval of the complementary rate is not the mirrored interval", "met-ci-mirror", ci=nm)
         C(np.all(ci[..., 0][fin] <= ci[..., 1][fin]), "interval lower above upper", "met-ci-order", ci=nm)
     for a, b in CI_ALIASES:
